@@ -27,11 +27,19 @@ MENUS = {
     "newlines_to_breaks": ["newline", "word"],
     "condense_number_suffixes": ["number", "word", "space"],
     "match_quotes": ["quote", "word"],
+    # the whole Document::parse pipeline (all condensing passes in their real order, quote pairing,
+    # articles_imply_nouns, dictionary metadata from a stub dictionary that knows no word)
+    "parse": ["word", "period", "apostrophe", "space", "newline", "quote", "number"],
+    # the same pipeline on documents drawn from sub-menus, so that more tokens fit the path budget
+    "parse:quotes": ["quote", "period", "word", "space"],
+    "parse:contractions": ["word", "apostrophe", "period", "space"],
+    "parse:numbers": ["number", "word", "period", "space"],
+    "parse:lines": ["newline", "space", "word", "period"],
 }
 
 
-def find_fn(raw, suffix):
-    c = [n for n in raw if n.endswith(suffix) and "{closure" not in n]
+def find_fn(raw, suffix, contains=""):
+    c = [n for n in raw if n.endswith(suffix) and "{closure" not in n and contains in n]
     if len(c) != 1:
         raise Unsupported(f"cannot uniquely resolve MIR function *{suffix}: {c}")
     return c[0]
@@ -40,17 +48,19 @@ def find_fn(raw, suffix):
 def run(mir_path, pass_name, n, src_dir, extra=2):
     raw = load_functions(mir_path)
     enums = load_enums(src_dir)
-    fn = find_fn(raw, ">::" + pass_name)
+    variant = pass_name
+    pass_name = pass_name.split(":")[0]
+    fn = find_fn(raw, ">::" + pass_name, "document::<impl")
     f_ri = find_fn(raw, ">::remove_indices")
     resolve = {r" as VecExt>::remove_indices$": f_ri}
-    menu = MENUS[pass_name]
+    menu = MENUS[variant]
     L = n + extra
     bounds = [z3.BitVec(f"b{i}", 64) for i in range(n + 1)]
     sel = [z3.BitVec(f"k{i}", 8) for i in range(n)]
     chars = [z3.BitVec(f"c{i}", 32) for i in range(L)]
     amounts = [z3.BitVec(f"a{i}", 64) for i in range(n)]
     ex = Explorer()
-    result = {"pass": pass_name, "n": n, "text_len": L, "violations": [], "panics": [], "functions": set()}
+    result = {"pass": variant, "n": n, "text_len": L, "violations": [], "panics": [], "functions": set()}
     TK = enums["TokenKind"]
     PU = enums["Punctuation"]
 
@@ -59,6 +69,8 @@ def run(mir_path, pass_name, n, src_dir, extra=2):
             return Enum("Word", TK.index("Word"), [Enum("None", 0, [])])
         if which == "period":
             return Enum("Punctuation", TK.index("Punctuation"), [Enum("Period", PU.index("Period"), [])])
+        if which == "apostrophe":
+            return Enum("Punctuation", TK.index("Punctuation"), [Enum("Apostrophe", PU.index("Apostrophe"), [])])
         if which == "quote":
             return Enum("Punctuation", TK.index("Punctuation"),
                         [Enum("Quote", PU.index("Quote"), [Adt("Quote", [Enum("None", 0, [])])])])
@@ -101,7 +113,7 @@ def run(mir_path, pass_name, n, src_dir, extra=2):
             # lexical shape established by the lexers (decided under C02's shape kernels): a punctuation
             # token is one char, Newline(k) covers k chars, Space(k) covers k blanks or k/2 tabs
             w = bounds[i + 1] - bounds[i]
-            if menu[k] in ("period", "quote"):
+            if menu[k] in ("period", "quote", "apostrophe"):
                 ctx.assume(w == 1)
             elif menu[k] == "newline":
                 ctx.assume(w == amounts[i])
@@ -114,9 +126,13 @@ def run(mir_path, pass_name, n, src_dir, extra=2):
         source = VecObj([Int(c, 32) for c in chars])
         tokens = VecObj(toks)
         doc = Adt("Document", [Ref(Cell(source)), tokens])  # { source: Lrc<Vec<char>>, tokens }
-        it = Interp(raw, MODELS, ctx, resolve, enums=enums)
+        it = Interp(raw, MODELS, ctx, dict(resolve), enums=enums)
         try:
-            it.call_fn(fn, [Ref(Cell(doc))])
+            if pass_name == "parse":
+                it.resolve_map[r"as Dictionary>::get_word_metadata$"] = lambda it_, c, a: Enum("None", 0, [])
+                it.call_fn(fn, [Ref(Cell(doc)), Ref(Cell(Adt("StubDictionary", [])))])
+            else:
+                it.call_fn(fn, [Ref(Cell(doc))])
         except (PathEnd, Infeasible):
             pass
         result["functions"] |= it.called
@@ -134,7 +150,24 @@ def run(mir_path, pass_name, n, src_dir, extra=2):
                                "consecutive tokens are not contiguous (characters lost or duplicated)"))
             for t in out:
                 claims.append((z3.ULT(t.fields[0].fields[0].t, t.fields[0].fields[1].t), "a token became empty or inverted"))
-        if pass_name == "condense_number_suffixes":
+        if pass_name in ("parse", "match_quotes"):
+            # quote tokens point at existing twin quotes that point back
+            for qi, t in enumerate(out):
+                k = t.fields[1]
+                if k.variant == "Punctuation" and k.fields[0].variant == "Quote":
+                    tw = k.fields[0].fields[0].fields[0]  # Quote { twin_loc: Option<usize> }
+                    if tw.variant == "Some":
+                        idx = z3.simplify(tw.fields[0].t)
+                        ok_twin = False
+                        if z3.is_bv_value(idx) and idx.as_long() < len(out) and idx.as_long() != qi:
+                            ok2 = out[idx.as_long()].fields[1]
+                            if ok2.variant == "Punctuation" and ok2.fields[0].variant == "Quote":
+                                tw2 = ok2.fields[0].fields[0].fields[0]
+                                if tw2.variant == "Some":
+                                    b2 = z3.simplify(tw2.fields[0].t)
+                                    ok_twin = z3.is_bv_value(b2) and b2.as_long() == qi
+                        claims.append((z3.BoolVal(ok_twin), "a quote token's twin_loc does not point at a quote that points back"))
+        if pass_name in ("condense_number_suffixes", "parse"):
             # a number token that was given an ordinal suffix covers exactly its digits and the two suffix letters
             for t in out:
                 k = t.fields[1]
@@ -174,6 +207,8 @@ def run(mir_path, pass_name, n, src_dir, extra=2):
                 out.append(".")
             elif k == "quote":
                 out.append('"')
+            elif k == "apostrophe":
+                out.append("'")
             elif k == "space":
                 out.append(" " * w)
             elif k == "newline":
